@@ -321,3 +321,19 @@ func GenPingPongArrivals(r *common.Rng, base uint64, depth int, rounds int) []FB
 	}
 	return blocks
 }
+
+// NormTag neutralises the one known difference between a squashed and a sequentially built set_sum store: the raw
+// "set:" / "sum:" tag of a value (known finding C01/set_sum-tag-visible-in-deltas).  Digests render store values in
+// hex and embed the digests of their map inputs in hex again, so the tag shows up as hex^k("set:") for k = 1, 2, …
+// (a map reading a map reading the deltas is k = 2): every level up to 6 is mapped to the "sum:" spelling.
+func NormTag(p []byte) []byte {
+	s := string(p)
+	for k := 6; k >= 1; k-- {
+		a, b := "set:", "sum:"
+		for i := 0; i < k; i++ {
+			a, b = fmt.Sprintf("%x", a), fmt.Sprintf("%x", b)
+		}
+		s = strings.ReplaceAll(s, a, b)
+	}
+	return []byte(s)
+}
